@@ -798,7 +798,8 @@ def replay_line(rec):
                 tr.append(f"s{key.numerator}/{key.denominator}")
         nsub = max(esub) if esub else 0
         esub_l = [esub.get(n, SENT) for n in range(1, nsub + 1)]
-        parts = ["rw", core.rs(start), core.rs(stop), core.rs(step), "1" if cont else "0", "10", core.rs(e1), str(len(table))]
+        # max_iter 10; the number of sweep targets after spacing_high is what the run's float accumulation gave (10, or 9)
+        parts = ["rw", core.rs(start), core.rs(stop), core.rs(step), "1" if cont else "0", f"10:{max(len(sweep_idx) - 1, 0) if sweep_idx else 10}", core.rs(e1), str(len(table))]
         for key, (nb, e, szv) in table.items():
             parts += [f"{key.numerator}/{key.denominator}", str(nb), core.rs(e), core.rs(szv)]
         parts += [str(len(esub_l))] + [core.rs(v) for v in esub_l]
@@ -820,9 +821,6 @@ def compare_replay(rp, model_out):
         ok = msel == rp["real"] and mt == rp["trace"]
     else:
         ok = (mo.split()[0] == rp["real"].split()[0]) and mt == rp["trace"]
-        if not ok and rp.get("n_sweep") == 10:
-            # float accumulation in `current_spacing += spacing_change` dropped the 11th target: near-boundary
-            ok = (mo.split()[0] == rp["real"].split()[0]) and mt.split()[:-1] == rp["trace"].split()
     return ok, {"model": model_out, "real": rp["real"], "real_trace": rp["trace"]}
 
 
